@@ -283,3 +283,15 @@ type replayFunc func(t *testing.T, raw []byte) (violates bool, observed string)
 var replayers = map[string]replayFunc{}
 
 func registerReplay(prop string, f replayFunc) { replayers[prop] = f }
+
+// replayers for replay files of a particular shape: chosen when the file has the top-level field
+type markedReplayer struct {
+	prop, field string
+	f           replayFunc
+}
+
+var markedReplayers []markedReplayer
+
+func registerReplayFor(prop, field string, f replayFunc) {
+	markedReplayers = append(markedReplayers, markedReplayer{prop, field, f})
+}
